@@ -236,31 +236,32 @@ def c10fR1 : State := run c10fR [c10fReq "restart" [("waiting", .bool true)]]
 
 /-- `Arbiter.restart(inside_circusd=True)`, spelled out: `_restarting` and `_stopping` are set first, then the
     watchers are stopped (one `gen.multi` over all of them) under the `try` of fix 273f512 — the continuation
-    `restartInsideAfterStop` receives the outcome of that stop. -/
+    `restartInsideAfterStop was` receives the outcome of that stop, `was` being the `_stopping` found on entry. -/
 theorem C10_restart_inside_body (rec : Rec) (wt : Waiter) (s : State) :
     arbRestartInside rec wt s =
-      await rec (.arbStopWatchers (iterWatchers false (setRestarting s).2).1 true) .restartInsideAfterStop wt
+      await rec (.arbStopWatchers (iterWatchers false (setRestarting s).2).1 true) (.restartInsideAfterStop s.a.stopping) wt
         (iterWatchers false (setRestarting s).2).2 := rfl
 
 /-- **since fix 273f512 a failed arbiter `restart` gives the daemon back**: when `_stop_watchers` ends with an
-    exception (whatever it is, in whatever state) the `except Exception:` of `Arbiter.restart` resets `_restarting` and
-    `_stopping` and only then lets the exception go on to the waiter of the coroutine (the `synchronized` wrapper, which
-    releases the slot: `C10_release_whatever_outcome_*`) — nothing else in the state is touched.  `util.synchronized`
-    therefore no longer answers "arbiter is restarting…" after the failure (F33 repaired). -/
-theorem C10_failed_restart_resets_flags (rec : Rec) (e : Exc) (wt : Waiter) (s : State) :
-    runResume rec .restartInsideAfterStop (.exc e) wt s = deliver rec wt (.exc e) (clearRestarting s).2 ∧
-    (clearRestarting s).2.a.restarting = false ∧ (clearRestarting s).2.a.stopping = false ∧
-    (clearRestarting s).2.a.slot = s.a.slot ∧
-    (clearRestarting s).2 = { s with a := { s.a with restarting := false, stopping := false } } :=
+    exception (whatever it is, in whatever state) the `except Exception:` of `Arbiter.restart` resets `_restarting`,
+    restores the `_stopping` it found on entry (`was`; False for a daemon that was not shutting down) and only then lets
+    the exception go on to the waiter of the coroutine (the `synchronized` wrapper, which releases the slot:
+    `C10_release_whatever_outcome_*`) — nothing else in the state is touched.  `util.synchronized` therefore no longer
+    answers "arbiter is restarting…" after the failure (F33 repaired). -/
+theorem C10_failed_restart_resets_flags (rec : Rec) (was : Bool) (e : Exc) (wt : Waiter) (s : State) :
+    runResume rec (.restartInsideAfterStop was) (.exc e) wt s = deliver rec wt (.exc e) (clearRestarting was s).2 ∧
+    (clearRestarting was s).2.a.restarting = false ∧ (clearRestarting was s).2.a.stopping = was ∧
+    (clearRestarting was s).2.a.slot = s.a.slot ∧
+    (clearRestarting was s).2 = { s with a := { s.a with restarting := false, stopping := was } } :=
   ⟨rfl, rfl, rfl, rfl, rfl⟩
 
 /-- … and a stop of the watchers that succeeds still ends the restart the way `quit` ends: the loop is stopped -/
-theorem C10_restart_inside_success (rec : Rec) (wt : Waiter) (s : State) :
-    runResume rec .restartInsideAfterStop .unit wt s = arbStopTail rec wt s := rfl
+theorem C10_restart_inside_success (rec : Rec) (was : Bool) (wt : Waiter) (s : State) :
+    runResume rec (.restartInsideAfterStop was) .unit wt s = arbStopTail rec wt s := rfl
 
 -- non-vacuity: the exception that arrives in the witness below is the `AccessDenied` of alpha's stop, in a state with
 -- both flags set
-example : (runResume (exec 100) .restartInsideAfterStop accessDenied .none
+example : (runResume (exec 100) (.restartInsideAfterStop false) accessDenied .none
             { c10fR with a := { c10fR.a with restarting := true, stopping := true } }).2.a.restarting = false := by
   decide +kernel
 
